@@ -98,6 +98,10 @@ def _fits(v, ty: Optional[T.Ty]) -> bool:
     return True
 
 
+def ast_is_classvar(ann) -> bool:
+    return ast.unparse(ann).startswith("ClassVar")
+
+
 class Builder:
     def __init__(self):
         self.memo: Dict[int, Any] = {}
@@ -137,10 +141,19 @@ class Builder:
                 cls = _import_class(ci)
                 if ci.name in LOG_CLASSES:
                     return _Quiet()
-                if hasattr(cls, "model_construct"):
-                    obj = cls.model_construct()
-                else:
-                    obj = object.__new__(cls)
+                obj = None
+                for cand_ci in [ci] + [c for c in ci.subclasses() if c is not ci]:
+                    try:
+                        cand = _import_class(cand_ci)
+                        if getattr(cand, "__abstractmethods__", None):
+                            continue
+                        obj = cand.model_construct() if hasattr(cand, "model_construct") else object.__new__(cand)
+                        ci = cand_ci
+                        break
+                    except Exception:
+                        continue
+                if obj is None:
+                    raise TypeError(f"no concrete class to instantiate for {v['$class']}")
                 self.memo[r] = obj
                 for name, val in v.items():
                     if name.startswith("$"):
@@ -152,15 +165,17 @@ class Builder:
                     else:
                         built = self.build(val, fty)
                     self.setattr(obj, name, built)
-                # loggers that the model did not mention
+                # fields the model did not mention: loggers get a quiet stand-in, required fields a neutral value
                 for c in ci.mro():
                     for fn, (ann, _d) in c.fields.items():
-                        if ann is None:
+                        if ann is None or fn == "model_config" or ast_is_classvar(ann):
                             continue
                         fty = T.field_type(ci, fn)
                         inner = T.strip_opt(fty) if fty is not None else None
                         if inner is not None and inner.k == "obj" and inner.a[0].name in LOG_CLASSES:
                             self.setattr(obj, fn, _Quiet())
+                        elif fn not in v and not self.hasattr(obj, fn):
+                            self.setattr(obj, fn, _default_for(fty))
                 return obj
             if ty is not None and T.strip_opt(ty).k == "obj":
                 # a reference the model did not expand: construct an empty instance
@@ -174,6 +189,13 @@ class Builder:
                     return None
             return _default_for(ty)
         return v
+
+    @staticmethod
+    def hasattr(obj, name):
+        if name in getattr(obj, "__dict__", {}):
+            return True
+        p = getattr(obj, "__pydantic_private__", None)
+        return bool(p) and name in p
 
     @staticmethod
     def setattr(obj, name, value):
